@@ -24,6 +24,10 @@ python3 translator/py2coq_rc.py "$REPO/src/lcm" coq/Gen >> build/translator.log 
 echo "translator_rc_status=$?" >> build/translator.log
 python3 translator/py2coq_axes.py "$REPO/src/lcm" coq/Gen >> build/translator.log 2>&1
 echo "translator_axes_status=$?" >> build/translator.log
+python3 translator/py2coq_tmpl.py "$REPO/src/lcm" coq/Gen >> build/translator.log 2>&1
+echo "translator_tmpl_status=$?" >> build/translator.log
+python3 translator/py2coq_space.py "$REPO/src/lcm" coq/Gen >> build/translator.log 2>&1
+echo "translator_space_status=$?" >> build/translator.log
 cd coq
 if [ ! -f Makefile ] || [ _CoqProject -nt Makefile ]; then
   coq_makefile -f _CoqProject -o Makefile > ../build/coq_makefile.log 2>&1
